@@ -184,6 +184,19 @@ def _locs_det(text: str, doc: Any) -> List[Tuple]:
     return [n.location for n in _DENV.find(text, doc)]
 
 
+def _det_aliases(text: str, doc: Any) -> bool:
+    """Do the deterministic result's container values alias the document's own objects?"""
+    assert _DENV is not None
+    try:
+        for n in _DENV.find(text, doc):
+            at = D.get(doc, n.location)
+            if isinstance(at, (list, dict)) and at is not n.value:
+                return False
+    except Exception:  # noqa: BLE001
+        return False
+    return True
+
+
 _COMPILED: Dict[str, Any] = {}
 
 
@@ -375,8 +388,8 @@ def check_case(
                 _viol("invalid:multiset", f"{text} over {doc!r}: nodes {_jsonable_seq(seq)} are not the deterministic multiset {_jsonable_seq(det)}", payload)
             )
             return
-        if not ident:
-            out["violations"].append(_viol("invalid:identity", f"{text} over {doc!r}: a node's value is not the document value at its location", payload))
+        if not ident and _det_aliases(text, doc):
+            out["violations"].append(_viol("invalid:identity", f"{text} over {_short(doc)}: a node's value is not the document value at its location (it is in deterministic mode)", payload))
             return
         if permitted is not None:
             if seq not in permitted:
